@@ -5,7 +5,8 @@
    the refutations and partial theorems for Sacramento, InstreamDissolvedNutrientDecay, StorageRouting, ...).
 2. ORACLE on the implementation (metamorphic, through sim.Catalog and the generated wrappers, harness command
    SPLIT): for every stateful catalogue model, a 40-step series is run whole, 2-way split at EVERY point
-   (39 cuts) and 3-5-way split at random points (1-step segments included), every call starting from the state
+   (39 cuts), 3-5-way split at random points (1-step segments included) and split with EMPTY segments (cut at 0, cut at
+   the end, repeated cut points: a call over zero time steps must return the states unchanged), every call starting from the state
    array the previous call returned (same model object + same array, or fresh object + copied array).
    Outputs at every time step and final states must be BIT-IDENTICAL, except
      StorageRouting: within 2*massBalanceLimit = 2e-3 m3 per cut on storage (each of the two runs solves its
@@ -53,7 +54,21 @@ def cutsets(rng, n, nmulti):
             if len(pts) > 4:
                 pts = set(sorted(pts)[:2]) | {a, a + 1}
         cs.append(sorted(pts))
+    # EMPTY segments ("every split point" includes them; run_app with an empty segment): a cut at 0, a cut at the
+    # end, a repeated cut point in the middle, and mixtures -- a call over zero time steps must hand the states back
+    a, b = rng.randint(1, n - 1), rng.randint(1, n - 1)
+    cs += [[0], [n], [a, a], sorted([0, b, b, n]), sorted([a, a, a, b])]
+    k = rng.randint(2, 4)
+    pts = [rng.choice([0, n, rng.randint(0, n), rng.randint(1, n - 1)]) for _ in range(k)]
+    pts.append(rng.choice(pts))
+    cs.append(sorted(pts))
     return cs
+
+
+def has_empty(cuts):
+    """the cut set produces at least one segment of zero time steps"""
+    b = [0] + list(cuts) + [N]
+    return any(x == y for x, y in zip(b, b[1:]))
 
 
 def split_line(cs, mode, cuts):
@@ -235,6 +250,8 @@ def evaluate(c, cases, cuts, lines, mlines, mcuts, impl, mod, stats, tag):
         for j, r in enumerate(ri[1:]):
             c.count((m, cs['params'], cs['states'], cs['inputs'], ks[j]), nontrivial=nt)
             st['split_runs'] += 1
+            if has_empty(ks[j]):
+                st['split_runs_with_empty_segments'] = st.get('split_runs_with_empty_segments', 0) + 1
             d, cls = oracle_diff(cs, w, r, len(ks[j]))
             info = None
             key = finding_key(cs) if d is not None else None
@@ -353,12 +370,13 @@ def main():
     def run_batch(cases, tag):
         cuts = [cutsets(rng, N, nmulti) for _ in cases]
         # model side: every cut set, except for Storage (the extracted adaptive sub-stepping is ~100x slower than Go):
-        # the whole run, 6 two-way cuts and the multi-way splits
+        # the whole run, 5 two-way cuts, 2 multi-way splits and 4 cut sets with empty segments
         mcuts = []
         for cs, ks in zip(cases, cuts):
             if cs['model'] == 'Storage' and quick:
-                two = [k for k in ks if len(k) == 1]
-                mcuts.append(rng.sample(two, 6) + [k for k in ks if len(k) > 1][:3])
+                two = [k for k in ks if len(k) == 1 and 0 < k[0] < N]
+                multi = [k for k in ks if len(k) > 1 and not has_empty(k)]
+                mcuts.append(rng.sample(two, 5) + multi[:2] + [k for k in ks if has_empty(k)][:4])
             else:
                 mcuts.append(ks)
         modes = [rng.choice(['same', 'fresh']) for _ in cases]
@@ -392,13 +410,15 @@ def main():
     c.cov['rule'] = ('per stateful catalogue model (17): parameter vectors, initial states and 40-step input series from the generators '
                      'of the model\'s own check (C10/C11/C12/C13; rainfall-runoff models start from their own InitialiseStates and, in a '
                      'second batch, from final states the implementation returned); each case is run whole, 2-way split at every one of '
-                     'the 39 cut points and at %d random 3-5-way cut sets (1-step segments forced in 60 %% of them), each call starting from '
+                     'the 39 cut points, at %d random 3-5-way cut sets (1-step segments forced in 60 %% of them) and at 6 cut sets with EMPTY '
+                     'segments (cut at 0, cut at the end, a repeated cut point, mixtures of these), each call starting from '
                      'the state array returned by the previous one (same object/array or fresh object/copied array, chosen per case), '
                      'through sim.Catalog (harness command SPLIT) and through the extracted Coq kernels (OCaml driver command SPLIT); '
                      'one evaluation = one (case, cut set) split run compared with the whole run; non-trivial = the whole run returned and '
                      'has at least one non-zero output; distinct by (model, parameters, states, inputs, cut set)' % nmulti)
     known_run = sum(s['known_finding_runs'] for s in stats.values())
-    c.finish(extra_cov={'per_model': stats, 'series_length': N, 'cut_sets_per_case': N - 1 + nmulti,
+    c.finish(extra_cov={'per_model': stats, 'series_length': N, 'cut_sets_per_case': N - 1 + nmulti + 6, 'cut_sets_with_empty_segments_per_case': 6,
+                        'split_runs_with_empty_segments': sum(s.get('split_runs_with_empty_segments', 0) for s in stats.values()),
                         'storage_routing_tolerance_m3_per_cut': 2 * LIMIT,
                         'known_finding_split_runs': known_run, 'exhaustive': False,
                         'oracle': 'bit-identical outputs and final states (StorageRouting: 2*massBalanceLimit per cut; Sacramento '
